@@ -24,6 +24,9 @@ func mkStr(s string) StrCase {
 }
 
 func (c StrCase) S() string {
+	if c.B64 == "" {
+		return c.Text // hand-written corpus entries give plain text
+	}
 	b, _ := base64.StdEncoding.DecodeString(c.B64)
 	return string(b)
 }
